@@ -10,6 +10,9 @@ import (
 	"github.com/cloudwego/hertz/pkg/common/config"
 	"github.com/cloudwego/hertz/pkg/route"
 
+	"github.com/cloudwego/hertz/pkg/app/server"
+
+	"verif/harness/lib/loop"
 	"verif/harness/lib/mon"
 	"verif/harness/lib/rig"
 	"verif/harness/lib/sconn"
@@ -48,6 +51,7 @@ func main() {
 			"header views compared as canonical-name -> ordered value list; values trimmed of SP; obs-folded values compared modulo whitespace runs",
 			"repeated singleton fields (Host, User-Agent, Content-Type, Cookie) and chunk extensions are not generated; folded continuation lines contain no colon",
 			"the interim 100 Continue is accepted when present before the final response of an Expect request, not required (RFC 7231 5.1.1 lets a server omit it when the body already arrived)",
+			"loopback family: real TCP to real servers (standard and netpoll transports); one write per fragment with TCP_NODELAY, the kernel may still coalesce fragments",
 			"LF-only line ends and leading empty lines are not part of the well-formed domain here (C02 covers them for consistency)",
 		},
 		Shards: func(t string) int {
@@ -57,7 +61,7 @@ func main() {
 			return 8
 		},
 		Floors: func(t string) map[string]int64 {
-			return map[string]int64{"requests_sent": 2000, "handler_views_compared": 2000, "responses_parsed": 2000}
+			return map[string]int64{"requests_sent": 2000, "handler_views_compared": 2000, "responses_parsed": 2000, "loopback_connections_netpoll": 150}
 		},
 		Budget: func(t string) time.Duration {
 			if t == "thorough" {
@@ -81,15 +85,60 @@ func work(w *mon.W) {
 	}
 	n := uint64(w.Pick(30000, 1500000))
 	w.Cases("conn", n, func(c *mon.Case) { oneConn(w, c, get, false) })
+	// the same generator and oracle over real loopback TCP against real servers on the
+	// standard and the netpoll transport (fragmentation best effort there)
+	w.Cases("loopback", uint64(w.Pick(4000, 60000)), func(c *mon.Case) { oneConn(w, c, get, true) })
+	for _, s := range lbServers {
+		if s != nil {
+			s.s.Stop()
+		}
+	}
 	// hostile near-miss names (names that are not tokens but collide with a framing
 	// name under sloppy case folding): the field must not frame the request
 	w.Cases("hostile-name", uint64(w.Pick(1000, 20000)), func(c *mon.Case) { hostileName(w, c, get) })
 }
 
-func oneConn(w *mon.W, c *mon.Case, get func(cfg) *engine, _ bool) {
+// lbServer is a real server on a loopback port (standard or netpoll transport).
+type lbServer struct {
+	s   *loop.Server
+	obs *rig.Observer
+}
+
+var lbServers = map[[2]bool]*lbServer{}
+
+func getLB(w *mon.W, np, stream bool) *lbServer {
+	k := [2]bool{np, stream}
+	if s, ok := lbServers[k]; ok {
+		return s
+	}
+	obs := &rig.Observer{Stream: stream}
+	srv, err := loop.Start(np, func(h *server.Hertz) { h.NoRoute(obs.Handle) }, server.WithStreamBody(stream), server.WithMaxRequestBodySize(4<<20))
+	if err != nil {
+		w.Note("loopback server did not start: " + err.Error())
+		lbServers[k] = nil
+		return nil
+	}
+	lbServers[k] = &lbServer{srv, obs}
+	return lbServers[k]
+}
+
+func oneConn(w *mon.W, c *mon.Case, get func(cfg) *engine, loopback bool) {
 	r := c.R
 	cf := cfg{stream: r.Bool(), noNorm: r.Chance(8), idle0: r.Chance(6)}
-	en := get(cf)
+	np := false
+	var en *engine
+	var lb *lbServer
+	if loopback {
+		cf.noNorm, cf.idle0 = false, false
+		np = r.Bool()
+		lb = getLB(w, np, cf.stream)
+		if lb == nil {
+			return
+		}
+		en = &engine{obs: lb.obs}
+	} else {
+		en = get(cf)
+	}
 	nreq := 1 + r.Intn(6)
 	tag := fmt.Sprintf("c%d", c.I)
 	var reqs []*wire.AReq
@@ -104,6 +153,9 @@ func oneConn(w *mon.W, c *mon.Case, get func(cfg) *engine, _ bool) {
 		// also a cut between head and body is interesting
 	}
 	frags, policy := wire.FragSchedule(r, stream, bounds)
+	if loopback && len(frags) > 300 {
+		frags, policy = [][]byte{stream}, "whole" // keep the syscall count per case bounded
+	}
 	bufSize := r.Int(4096, 4096, 100, 8192, 512)
 	readSizes := []int{1, 7, 512, 4096, 32768, 100000}
 	rs := readSizes[r.Intn(len(readSizes))]
@@ -139,9 +191,43 @@ func oneConn(w *mon.W, c *mon.Case, get func(cfg) *engine, _ bool) {
 		for _, a := range reqs {
 			ds = append(ds, a.String())
 		}
-		return map[string]interface{}{"config": fmt.Sprintf("%+v", cf), "buf": bufSize, "policy": policy, "frag_sizes": wire.FragSizes(frags), "read_size": rs, "var_read_size": varRS, "requests": ds, "stream_len": len(stream), "handler_read_limits": limits}
+		return map[string]interface{}{"config": fmt.Sprintf("%+v", cf), "loopback": loopback, "netpoll": np, "buf": bufSize, "policy": policy, "frag_sizes": wire.FragSizes(frags), "read_size": rs, "var_read_size": varRS, "requests": ds, "stream_len": len(stream), "handler_read_limits": limits}
 	}
-	res := rig.Serve(en.e, sc, bufSize, cf.idle0, 15*time.Second)
+	var methods []string
+	for _, a := range reqs {
+		methods = append(methods, a.Method)
+	}
+	var res *rig.Result
+	if loopback {
+		gap := time.Duration(0)
+		if len(frags) > 1 && len(frags) <= 8 {
+			gap = time.Duration(r.Int(0, 200, 1000)) * time.Microsecond
+		}
+		out, closed, err := lb.s.Exchange(frags, gap, 10*time.Second, func(out []byte) bool {
+			ms, perr := wire.ParseResponses(out, methods, false)
+			if perr != nil {
+				return false
+			}
+			n := 0
+			for _, m := range ms {
+				if m.Status >= 200 {
+					n++
+				}
+			}
+			return n >= nreq
+		})
+		res = &rig.Result{Out: out, Closed: closed}
+		if err != nil {
+			c.Violate("loopback-timeout", "transport netpoll=%v: the server did not deliver %d responses within 10 s (%v); %d bytes received", np, nreq, err, len(out))
+			return
+		}
+		w.Count("loopback_connections", 1)
+		if np {
+			w.Count("loopback_connections_netpoll", 1)
+		}
+	} else {
+		res = rig.Serve(en.e, sc, bufSize, cf.idle0, 15*time.Second)
+	}
 	w.Count("connections", 1)
 	w.Count("requests_sent", int64(nreq))
 	w.Count("policy_"+policy, 1)
@@ -162,7 +248,7 @@ func oneConn(w *mon.W, c *mon.Case, get func(cfg) *engine, _ bool) {
 	views := en.obs.Snapshot()
 	// shape
 	nontrivial := nreq >= 2
-	parts := []interface{}{fmt.Sprintf("%+v", cf), bufSize, policy}
+	parts := []interface{}{fmt.Sprintf("%+v", cf), bufSize, policy, loopback, np}
 	for _, a := range reqs {
 		parts = append(parts, a.Method, a.Ver, a.Framing, sizeClass(len(a.Body)), len(a.Chunks), len(a.Trailers), a.Expect100, a.Folded, a.NearMiss)
 		if len(a.Body) >= 4096 || a.Folded || a.NearMiss {
@@ -194,10 +280,6 @@ func oneConn(w *mon.W, c *mon.Case, get func(cfg) *engine, _ bool) {
 		w.Count("handler_views_compared", 1)
 	}
 	// (b) responses
-	var methods []string
-	for _, a := range reqs {
-		methods = append(methods, a.Method)
-	}
 	msgs, err := wire.ParseResponses(res.Out, methods, true)
 	if err != nil {
 		c.Violate("response-malformed", "server output does not parse as HTTP/1.1 responses: %v; output head %q", err, trunc(string(res.Out), 300))
